@@ -31,8 +31,6 @@ ASSUMPTIONS = [
     "pipelines return a fresh list per call (list_combiner appends in place)",
     "probe values are dyadic rationals with small numerators: replace / list / union arithmetic is exact in binary64; "
     "rescaled rates are compared within 4 ulp of the returned float (two correctly rounded operations)",
-    "post-processor callables are truthy (the code still tests `if self.post_processor`); source callables may have "
-    "any truth value (finding F-Y, fixed in e7ddbc13: falsy callable sources are generated and in the corpus)",
 ]
 TRUSTED = [
     "C14: probe components/callables and their logs; logging wrappers installed over "
@@ -53,8 +51,8 @@ CLAIM = {
             "agreement of registry snapshots, call logs and values on generated real-context cases, plus an "
             "independent oracle (counters, order, recomputed value).",
     "note": "callables are universally quantified pure functions (Section variables); no guard on sources since fix "
-            "e7ddbc13 (F-Y; the old truthiness behaviour is kept as an explicitly named old model); post-processor "
-            "callables assumed truthy; exact rational arithmetic in the model, float rounding of rescaled rates "
+            "e7ddbc13 (F-Y; the old truthiness behaviour is kept as an explicitly named old model) nor on post-processors "
+            "since 8d240cc5 (F-AD): callables of any truth value are generated; exact rational arithmetic in the model, float rounding of rescaled rates "
             "bounded by 4 ulp in the correspondence only; correspondence sampled",
 }
 
@@ -217,6 +215,22 @@ def flavoured(fn, flavour, owner, truthy=True):
     return fn
 
 
+class FalsyPost:
+    """A post-processor callable whose truth value is False (finding F-AD)."""
+
+    def __init__(self, fn, via_len):
+        self._fn, self.kind, self.name, self._via_len = fn, fn.kind, fn.__name__, via_len
+
+    def __call__(self, value, manager):
+        return self._fn(value, manager)
+
+    def __bool__(self):
+        return False
+
+    def __len__(self):
+        return 0 if self._via_len else 1
+
+
 class PostWrappers:
     """Logging wrappers over the built-in post-processors, installed in vivarium.framework.values for one case."""
 
@@ -300,7 +314,10 @@ def run_context(case):
             return values.union_post_processor
         return custom_posts[spec[1]]
 
-    custom_posts = {int(cid): make_custom_post(rec, int(cid), sp) for cid, sp in case["posts"].items()}
+    custom_posts = {}
+    for cid, sp in case["posts"].items():
+        fn = make_custom_post(rec, int(cid), sp)
+        custom_posts[int(cid)] = fn if sp.get("truthy", True) else FalsyPost(fn, int(cid) % 2 == 0)
 
     class Registrar(Component):
         def __init__(self, cname, actions):
@@ -763,6 +780,9 @@ def run_case(case):
             tags.add("call_union_over_series")
         if any(t["k"] == "src" and not case["sources"][str(t["id"])].get("truthy", True) for t in c["trace"]):
             tags.add("call_falsy_source")
+        if any(t["k"] == "post" and t["kind"][0] == "custom" and not case["posts"][str(t["kind"][1])].get("truthy", True)
+               for t in c["trace"]):
+            tags.add("call_falsy_post_applied")
         if c["steps"] and len(set(c["steps"])) > 1:
             tags.add("call_distinct_steps")
         if any(s % 86400000000000 for s in c["steps"]):
@@ -826,7 +846,7 @@ def gen_case(rng: random.Random):
             if post == ["custom"]:
                 cid = next_cid[0]
                 next_cid[0] += 1
-                posts[str(cid)] = {"c": rng.choice(A_CHOICES), "d": rng.choice(B_CHOICES)}
+                posts[str(cid)] = {"c": rng.choice(A_CHOICES), "d": rng.choice(B_CHOICES), "truthy": rng.random() < 0.6}
                 post = ["custom", cid]
             sources[str(sid)] = {"list": is_list, "entries": entries, "comb": comb, "post": post,
                                  "flavour": rng.choice(["func", "func", "method", "obj"]), "truthy": rng.random() < 0.8,
